@@ -18,13 +18,34 @@ pub struct WakerEngine;
 struct CountWaker {
     wakes: AtomicU64,
     drops: Arc<AtomicU32>,
+    /// what the caller's executor does when it is woken (e.g. drops or wakes a waker it stored):
+    /// operations on the retained foreign-side handles, run re-entrantly inside the wake
+    reactions: Mutex<Vec<WOp>>,
+    pool: Mutex<Option<Arc<Mutex<Shared>>>>,
+}
+impl CountWaker {
+    fn react(&self) {
+        let ops: Vec<WOp> = std::mem::take(&mut *self.reactions.lock().unwrap());
+        if ops.is_empty() {
+            return;
+        }
+        let pool = self.pool.lock().unwrap().clone();
+        if let Some(sh) = pool {
+            for op in ops {
+                run_wop(&sh, op, None);
+                sh.lock().unwrap().reentrant += 1;
+            }
+        }
+    }
 }
 impl Wake for CountWaker {
     fn wake(self: Arc<Self>) {
         self.wakes.fetch_add(1, Ordering::SeqCst);
+        self.react();
     }
     fn wake_by_ref(self: &Arc<Self>) {
         self.wakes.fetch_add(1, Ordering::SeqCst);
+        self.react();
     }
 }
 impl Drop for CountWaker {
@@ -46,63 +67,91 @@ enum WOp {
 }
 
 /// State shared between the executor and the simulated plugin code inside the polled object.
+/// The lock is never held while a waker operation runs: the caller's waker may react to a wake
+/// by operating on these handles again.
 struct Shared {
     pending: Vec<WOp>,
     handles: Vec<Option<Waker>>,
     wakes_done: u64,
     effective: u64,
+    reentrant: u64,
     log: Vec<String>,
     ready: bool,
 }
 
-fn run_wop(sh: &mut Shared, op: WOp, borrowed: Option<&Waker>) {
+fn note(sh: &Mutex<Shared>, wake: bool, line: String) {
+    let mut g = sh.lock().unwrap();
+    if wake {
+        g.wakes_done += 1;
+    }
+    g.effective += 1;
+    g.log.push(line);
+}
+
+fn run_wop(sh: &Mutex<Shared>, op: WOp, borrowed: Option<&Waker>) {
     match op {
         WOp::BorrowWake => {
             if let Some(w) = borrowed {
+                note(sh, true, "BorrowWake".into());
                 w.wake_by_ref();
-                sh.wakes_done += 1;
-                sh.effective += 1;
-                sh.log.push("BorrowWake".into());
             }
         }
         WOp::BorrowClone(h) => {
             if let Some(w) = borrowed {
-                if sh.handles[h].is_none() {
-                    sh.handles[h] = Some(w.clone());
-                    sh.effective += 1;
-                    sh.log.push(format!("BorrowClone->{}", h));
+                if sh.lock().unwrap().handles[h].is_none() {
+                    let c = w.clone();
+                    let mut g = sh.lock().unwrap();
+                    if g.handles[h].is_none() {
+                        g.handles[h] = Some(c);
+                        g.effective += 1;
+                        g.log.push(format!("BorrowClone->{}", h));
+                    }
                 }
             }
         }
         WOp::Clone(a, b) => {
-            if a != b && sh.handles[a].is_some() && sh.handles[b].is_none() {
-                let c = sh.handles[a].as_ref().unwrap().clone();
-                sh.handles[b] = Some(c);
-                sh.effective += 1;
-                sh.log.push(format!("Clone {}->{}", a, b));
+            if a == b {
+                return;
+            }
+            let src = {
+                let mut g = sh.lock().unwrap();
+                if g.handles[a].is_some() && g.handles[b].is_none() { g.handles[a].take() } else { None }
+            };
+            if let Some(w) = src {
+                let c = w.clone();
+                let mut g = sh.lock().unwrap();
+                g.handles[a] = Some(w);
+                g.handles[b] = Some(c);
+                g.effective += 1;
+                g.log.push(format!("Clone {}->{}", a, b));
             }
         }
         WOp::Wake(h) => {
-            if let Some(w) = sh.handles[h].take() {
+            let w = sh.lock().unwrap().handles[h].take();
+            if let Some(w) = w {
+                note(sh, true, format!("Wake {}", h));
                 w.wake();
-                sh.wakes_done += 1;
-                sh.effective += 1;
-                sh.log.push(format!("Wake {}", h));
             }
         }
         WOp::WakeRef(h) => {
-            if let Some(w) = sh.handles[h].as_ref() {
+            let w = sh.lock().unwrap().handles[h].take();
+            if let Some(w) = w {
+                note(sh, true, format!("WakeRef {}", h));
                 w.wake_by_ref();
-                sh.wakes_done += 1;
-                sh.effective += 1;
-                sh.log.push(format!("WakeRef {}", h));
+                let mut g = sh.lock().unwrap();
+                if g.handles[h].is_none() {
+                    g.handles[h] = Some(w);
+                } else {
+                    drop(g);
+                    drop(w);
+                }
             }
         }
         WOp::Drop(h) => {
-            if let Some(w) = sh.handles[h].take() {
+            let w = sh.lock().unwrap().handles[h].take();
+            if let Some(w) = w {
+                note(sh, false, format!("Drop {}", h));
                 drop(w);
-                sh.effective += 1;
-                sh.log.push(format!("Drop {}", h));
             }
         }
     }
@@ -115,12 +164,12 @@ struct SimObj {
 
 impl SimObj {
     fn inside(&self, cx: &mut Context<'_>) -> bool {
-        let mut sh = self.sh.lock().unwrap();
-        let ops = std::mem::take(&mut sh.pending);
+        let ops = std::mem::take(&mut self.sh.lock().unwrap().pending);
         for op in ops {
-            run_wop(&mut sh, op, Some(cx.waker()));
+            run_wop(&self.sh, op, Some(cx.waker()));
         }
-        sh.ready
+        let r = self.sh.lock().unwrap().ready;
+        r
     }
 }
 
@@ -239,10 +288,9 @@ fn apply(st: &mut State, step: &Step, counts: &mut Vec<&'static str>) -> Result<
             st.sh.lock().unwrap().pending.push(op);
             return Ok(format!("queued {:?}", op));
         }
-        let mut sh = st.sh.lock().unwrap();
-        let before = sh.effective;
-        track(|| run_wop(&mut sh, op, None));
-        if sh.effective == before {
+        let before = st.sh.lock().unwrap().effective;
+        track(|| run_wop(&st.sh, op, None));
+        if st.sh.lock().unwrap().effective == before {
             return Ok(format!("{} noop", step.op));
         }
         if st.obj.is_none() {
@@ -254,6 +302,21 @@ fn apply(st: &mut State, step: &Step, counts: &mut Vec<&'static str>) -> Result<
         return Ok(format!("outside {:?}", op));
     }
     match step.op.as_str() {
+        "OnWake" => {
+            // the caller's waker will, when next woken, operate on a retained foreign handle
+            let h = step.arg(1).rem_euclid(NH as i64) as usize;
+            let op = match step.arg(0).rem_euclid(3) {
+                0 => WOp::Drop(h),
+                1 => WOp::Wake(h),
+                _ => WOp::Clone(h, (h + 1) % NH),
+            };
+            if st.drops.load(Ordering::SeqCst) > 0 {
+                return Ok("OnWake noop".into());
+            }
+            unsafe { (*st.wref).reactions.lock().unwrap().push(op) };
+            counts.push("fault.reentrant_reaction_registered");
+            Ok(format!("OnWake {:?}", op))
+        }
         "PollBegin" => {
             if st.in_poll {
                 return Ok("PollBegin noop".into());
@@ -334,15 +397,16 @@ fn state_hash(st: &State) -> u64 {
     h.0
 }
 
-const OPS: [&str; 10] = ["PollBegin", "PollEnd", "WBorrowWake", "WBorrowClone", "WClone", "WWake", "WWakeRef", "WDrop", "ObjDrop", "CallerDrop"];
+const OPS: [&str; 11] = ["PollBegin", "PollEnd", "WBorrowWake", "WBorrowClone", "WClone", "WWake", "WWakeRef", "WDrop", "ObjDrop", "CallerDrop", "OnWake"];
 
 fn new_state(kind: i64) -> State {
     let drops = Arc::new(AtomicU32::new(0));
-    let cw = Arc::new(CountWaker { wakes: AtomicU64::new(0), drops: drops.clone() });
+    let cw = Arc::new(CountWaker { wakes: AtomicU64::new(0), drops: drops.clone(), reactions: Mutex::new(Vec::new()), pool: Mutex::new(None) });
     let w = Arc::downgrade(&cw);
     let wref = Arc::as_ptr(&cw);
     let caller = Waker::from(cw);
-    let sh = Arc::new(Mutex::new(Shared { pending: Vec::new(), handles: (0..NH).map(|_| None).collect(), wakes_done: 0, effective: 0, log: Vec::new(), ready: false }));
+    let sh = Arc::new(Mutex::new(Shared { pending: Vec::new(), handles: (0..NH).map(|_| None).collect(), wakes_done: 0, effective: 0, reentrant: 0, log: Vec::new(), ready: false }));
+    *unsafe { &*wref }.pool.lock().unwrap() = Some(sh.clone());
     let obj = make_obj(kind, &sh);
     State { sh, obj: Some(obj), w, wref, caller: Some(caller), drops, in_poll: false, poll_entry: 0, model_wakes: 0 }
 }
@@ -358,7 +422,10 @@ impl Engine for WakerEngine {
         p.set("threads", threads);
         p.set("obj", rng.range(0, 2));
         let max_steps = if rng.chance(1, 2) { rng.range(3, 10) } else { rng.range(10, if thorough { 50 } else { 30 }) };
-        let mut w: Vec<u32> = vec![8, 8, 5, 12, 10, 8, 6, 10, 1, 1];
+        let mut w: Vec<u32> = vec![8, 8, 5, 12, 10, 8, 6, 10, 1, 1, 3];
+        if rng.chance(1, 2) {
+            w[10] = 0;
+        }
         for i in 2..w.len() {
             if rng.chance(1, 6) {
                 w[i] = 0;
@@ -374,6 +441,7 @@ impl Engine for WakerEngine {
             match op {
                 "PollBegin" => p.push(t, op, &[rng.range(0, 2), rng.chance(1, 4) as i64]),
                 "WClone" => p.push(t, op, &[h0, h1]),
+                "OnWake" => p.push(t, op, &[rng.range(0, 2), h0]),
                 "WBorrowClone" | "WWake" | "WWakeRef" | "WDrop" => p.push(t, op, &[h0]),
                 _ => p.push(t, op, &[]),
             }
@@ -503,14 +571,16 @@ fn exec_free(plan: &Plan, ctx: &mut RunCtx) -> VResult {
             let mine: Vec<Option<Waker>> = base.iter().map(|h| h.clone()).collect();
             let steps = &plan.steps;
             hs.push(sc.spawn(move || {
-                let mut sh = Shared { pending: Vec::new(), handles: mine, wakes_done: 0, effective: 0, log: Vec::new(), ready: false };
+                let sh = Mutex::new(Shared { pending: Vec::new(), handles: mine, wakes_done: 0, effective: 0, reentrant: 0, log: Vec::new(), ready: false });
                 for step in steps.iter().filter(|s| (s.t as usize) % threads == t && s.t != 0 || threads == 1) {
                     if let Some(op) = parse_wop(step) {
-                        run_wop(&mut sh, op, None);
+                        run_wop(&sh, op, None);
                     }
                 }
-                sh.handles.clear();
-                sh.wakes_done
+                let hs: Vec<Option<Waker>> = std::mem::take(&mut sh.lock().unwrap().handles);
+                drop(hs);
+                let n = sh.lock().unwrap().wakes_done;
+                n
             }));
         }
         hs.into_iter().map(|h| h.join().expect("free-mode thread panicked")).collect()
